@@ -102,3 +102,28 @@ package dns
 //@   assert at "wire := make([]byte, Len(r1)+1)" kept: h.Name == cname && h.Ttl == s.OrigTtl
 //@   callsite "PackRR" plain: same(arg0, r1) && arg2 == 0 && arg3 == nil && !arg4
 //@   callsite "Join" wild: len(labels) > s.Labels
+
+// ---- hash ropes (C17): what is fed to the digest, in which order, how many times ----
+// RFC 5155 5: IH(salt, x, 0) = H(x || salt), IH(salt, x, k) = H(IH(salt, x, k-1) || salt); x is the owner name
+// in wire format, lower-cased; `iter` additional rounds
+//@ func HashName [C17]
+//@   opt no-safety
+//@   assert at "return toBase32(nsec3)" rounds: k == iter
+//@   loop 1 invariant k <= iter
+//@   callsite "PackDomainName" lower: arg0 == callres("ToLower") && callarg("ToLower", 0) == label && arg2 == 0 && arg3 == nil && !arg4
+//@   assert at "s.Write(wireSalt)@1" name1: same(callarg("Write", 0), name) && len(name) == off
+//@   assert at "s.Write(wireSalt)@2" prev: same(callarg("Write", 0), nsec3)
+//@   assert at "nsec3 := s.Sum(nil)" first: same(callarg("Write", 0), wireSalt)
+//@   assert at "nsec3 = s.Sum(nsec3[:0])" again: same(callarg("Write", 0), wireSalt) && called("Reset")
+//@   pure
+
+// RFC 4034 5.1.4: digest = H(owner name in canonical wire form | DNSKEY RDATA); the DS copies class, TTL,
+// algorithm and key tag from the key
+//@ func (*DNSKEY).ToDS [C17]
+//@   opt no-safety
+//@   assert at "wire := make([]byte, DefaultMsgSize)" keyvars: keywire.Flags == k.Flags && keywire.Protocol == k.Protocol && keywire.Algorithm == k.Algorithm && keywire.PublicKey == k.PublicKey
+//@   callsite "PackDomainName" owner: arg0 == callres("CanonicalName") && callarg("CanonicalName", 0) == k.Hdr.Name && arg2 == 0 && arg3 == nil && !arg4
+//@   callsite "Write" fed: same(arg0, owner) || same(arg0, wire)
+//@   assert at "ds.Digest = hex.EncodeToString(s.Sum(nil))" order: same(callarg("Write", 0), wire)
+//@   exit fields: ret0 != nil ==> ret0.Hdr.Rrtype == 43 && ret0.Hdr.Class == k.Hdr.Class && ret0.Hdr.Ttl == k.Hdr.Ttl && ret0.Hdr.Name == k.Hdr.Name && ret0.Algorithm == k.Algorithm && ret0.DigestType == h && ret0.KeyTag == callres("KeyTag")
+//@   exit digest: ret0 != nil ==> (h == 1 || h == 2 || h == 4 || h == 5)
